@@ -37,6 +37,25 @@ type Prog struct {
 type callSite struct {
 	Caller *ssa.Function
 	Instr  ssa.CallInstruction
+	// Shift > 0: the site calls fn through a bound-method value (the receiver is not among the site's
+	// arguments); Recv is the bound receiver when it can be read off the closure in the caller.
+	Shift int
+	Recv  ssa.Value
+}
+
+// Arg: the value passed for the callee's i-th parameter (receiver = parameter 0 of a method), or nil.
+func (cs callSite) Arg(i int) ssa.Value {
+	args := cs.Instr.Common().Args
+	if cs.Shift > 0 {
+		if i == 0 {
+			return cs.Recv
+		}
+		i -= cs.Shift
+	}
+	if i < 0 || i >= len(args) {
+		return nil
+	}
+	return args[i]
 }
 
 var libPkgs = []string{modPath, modPath + "/xmlenc", modPath + "/samlsp", modPath + "/samlidp"}
@@ -347,6 +366,135 @@ func (p *Prog) StaticCallersOf(fn *ssa.Function) []callSite {
 		}
 	}
 	return p.callers[fn]
+}
+
+// forwardedBy: for a synthetic wrapper (bound method value, method expression thunk) the function it forwards to.
+func forwardedBy(w *ssa.Function) *ssa.Function {
+	if w == nil || w.Synthetic == "" {
+		return nil
+	}
+	var tgt *ssa.Function
+	for _, b := range w.Blocks {
+		for _, in := range b.Instrs {
+			if ci, ok := in.(ssa.CallInstruction); ok {
+				sc := ci.Common().StaticCallee()
+				if sc == nil || tgt != nil {
+					return nil
+				}
+				tgt = sc
+			}
+		}
+	}
+	return tgt
+}
+
+type calleeAt struct {
+	Fn    *ssa.Function
+	Shift int       // 1: called through a bound-method value (Recv is the bound receiver, if known)
+	Recv  ssa.Value // receiver binding in the calling function
+}
+
+// CalleesAt resolves a call site: the static callee, or for a call through a func value the targets the
+// call graph gives (wrappers of method values are replaced by the method they forward to).
+func (p *Prog) CalleesAt(caller *ssa.Function, ci ssa.CallInstruction) []calleeAt {
+	if sc := ci.Common().StaticCallee(); sc != nil {
+		return []calleeAt{{Fn: sc}}
+	}
+	if ci.Common().IsInvoke() {
+		return nil
+	}
+	kind := p.cgKind
+	if kind == "" {
+		kind = "cha"
+	}
+	g := p.CallGraph(kind)
+	n := g.Nodes[caller]
+	if n == nil {
+		return nil
+	}
+	var out []calleeAt
+	seen := map[*ssa.Function]bool{}
+	for _, e := range n.Out {
+		if e.Site != ci || e.Callee == nil || e.Callee.Func == nil || seen[e.Callee.Func] {
+			continue
+		}
+		seen[e.Callee.Func] = true
+		f := e.Callee.Func
+		if t := forwardedBy(f); t != nil {
+			ca := calleeAt{Fn: t}
+			if len(f.FreeVars) == 1 {
+				ca.Shift = 1
+				ca.Recv = boundReceiver(caller, f)
+			}
+			out = append(out, ca)
+			continue
+		}
+		out = append(out, calleeAt{Fn: f})
+	}
+	sort.Slice(out, func(i, j int) bool { return out[i].Fn.String() < out[j].Fn.String() })
+	return out
+}
+
+// boundReceiver: the receiver bound into the method value w where it is created in fn (nil if it is
+// created elsewhere or more than once with different receivers).
+func boundReceiver(fn *ssa.Function, w *ssa.Function) ssa.Value {
+	var recv ssa.Value
+	for _, b := range fn.Blocks {
+		for _, in := range b.Instrs {
+			if mc, ok := in.(*ssa.MakeClosure); ok && mc.Fn == ssa.Value(w) && len(mc.Bindings) == 1 {
+				if recv != nil && recv != mc.Bindings[0] {
+					return nil
+				}
+				recv = mc.Bindings[0]
+			}
+		}
+	}
+	return recv
+}
+
+// CallersOf: StaticCallersOf plus the module call sites that reach fn through a func value according to the
+// call graph (method values in a table, a helper passed as a callback).
+func (p *Prog) CallersOf(fn *ssa.Function) []callSite {
+	out := append([]callSite{}, p.StaticCallersOf(fn)...)
+	kind := p.cgKind
+	if kind == "" {
+		kind = "cha"
+	}
+	g := p.CallGraph(kind)
+	add := func(target *ssa.Function, shift bool) {
+		n := g.Nodes[target]
+		if n == nil {
+			return
+		}
+		for _, e := range n.In {
+			if e.Site == nil || e.Caller == nil || !p.InModule(e.Caller.Func) || e.Caller.Func.Synthetic != "" {
+				continue
+			}
+			if e.Site.Common().StaticCallee() != nil || e.Site.Common().IsInvoke() {
+				continue
+			}
+			cs := callSite{Caller: e.Caller.Func, Instr: e.Site}
+			if shift {
+				cs.Shift = 1
+				cs.Recv = boundReceiver(e.Caller.Func, target)
+			}
+			out = append(out, cs)
+		}
+	}
+	add(fn, false)
+	for w := range p.allFns {
+		if w.Synthetic != "" && forwardedBy(w) == fn {
+			add(w, len(w.FreeVars) == 1)
+		}
+	}
+	sort.SliceStable(out, func(i, j int) bool {
+		a, b := out[i], out[j]
+		if a.Caller != b.Caller {
+			return p.FnName(a.Caller) < p.FnName(b.Caller)
+		}
+		return a.Instr.Pos() < b.Instr.Pos()
+	})
+	return out
 }
 
 // calleeName gives a canonical name for the static callee or the interface method of a call.
